@@ -55,8 +55,8 @@ let rec_obs c w =
   let key = (match c with I k -> k | F (k, _) -> k) in
   let strings = get_map (build_strings [(ascii key, None)]) and contigs = get_map (build_contigs [(ascii "c", None)]) in
   let r = (match c with
-    | I _ -> enc_record strings contigs (micro_site 0) [(ascii key, w)] [] false
-    | F (_, ns) -> enc_record strings contigs (micro_site ns) [] [(ascii key, w)] true) in
+    | I _ -> enc_record_w strings contigs (micro_site 0) [(ascii key, w)] [] false
+    | F (_, ns) -> enc_record_w strings contigs (micro_site ns) [] [(ascii key, w)] true) in
   " R:" ^ snd (wres r)
 
 let both c w back = match wres w with
@@ -127,7 +127,7 @@ let hd a =
       List.map (fun t -> match split_on '=' t with
         | [k; v] -> (ascii k, enc_fmt_int (scalars v))
         | _ -> failwith "fmt") (split_on '|' a.(12)) in
-    let r = enc_record strings contigs site infos fmts (ns > 0 && fmts <> []) in
+    let r = enc_record_w strings contigs site infos fmts (ns > 0 && fmts <> []) in
     (match wres r with
      | None, h -> Some (h ^ " -")
      | Some bs, h ->
@@ -199,7 +199,7 @@ let blk a =
   let ic = List.map cod infos and fc = List.map cod fmts in
   let strings = get_map (build_strings (List.map (fun (key, _, _) -> (ascii key, None)) (ic @ fc)))
   and contigs = get_map (build_contigs [(ascii "c", None)]) in
-  let r = enc_record strings contigs (micro_site ns)
+  let r = enc_record_w strings contigs (micro_site ns)
             (List.map (fun (key, w, _) -> (ascii key, w)) ic) (List.map (fun (key, w, _) -> (ascii key, w)) fc) (ns > 0 && fc <> []) in
   match wres r with
   | None, h -> Some (h ^ " -")
@@ -362,8 +362,11 @@ let vb a =
     let vback = (match t with None -> None | Some t -> read_eager_text (prs_of tab) h (t @ [n_of_int 10])) in
     let show o = match o with None -> "Err" | Some x -> rec_str x in
     let showc o = match o with None -> "-" | Some x -> rec_str (content h.h_v44 x) in
+    let reused = (match wb with
+      | None -> None
+      | Some bs -> (match bcf_read_into (rec_of a.(9)) strings contigs h bs with ROk x -> Some x | _ -> None)) in
     Some (String.concat "|" [wh; show back; (match t with None -> "WErr" | Some t -> hex_of_bytes t); show vback;
-                             showc back; showc vback; (if bcf_special r then "special" else "plain")])
+                             showc back; showc vback; (if bcf_special r then "special" else "plain"); show reused])
   | _ -> Some "HeaderErr"
 
 let handle kind a =
